@@ -14,9 +14,9 @@ binary64 round-to-nearest-even (`rnd = rne`).
   rne <v>          binary64 rounding of a rational→ <val>
   raop <m> <ctx|none> <ops>   facade over RaopAudio → per-op event lists
   mrp  <m> <vol> <ops>        facade over MrpAudio  → per-op event lists
-  ops: `s:<v>` set, `u` up, `d` down, `r` read, `p:<v>` report, `t:<v|none>` stream start (raop only),
+  ops: `s:<v>` set, `u` up, `d` down, `r` read, `p:<v>` report, `t:<v|none>:<a|r>` stream start, receiver accepts / rejects volume before RECORD (raop only),
        `o:<v>` update for another output device (mrp only); comma separated, `-` = none
-  events: recv:<v> wire:<v> disp:<v> ret:<v> raise:<e> log:<e>; `,` inside an op, `;` between ops
+  events: recv:<v> wire:<v> disp:<v> try:<v> late:<v> ret:<v> raise:<e> log:<e>; `,` inside an op, `;` between ops
 -/
 namespace PyatvModel.C20
 
@@ -55,6 +55,8 @@ def Ev.str : Ev → String
   | .wire x => "wire:" ++ x.str
   | .disp x => "disp:" ++ x.str
   | .ret x => "ret:" ++ x.str
+  | .tried x => "try:" ++ x.str
+  | .late x => "late:" ++ x.str
   | .raised e => "raise:" ++ e.str
   | .logged e => "log:" ++ e.str
 
@@ -66,9 +68,10 @@ def op? (raop : Bool) (s : String) : Option Op :=
   else match s.splitOn ":" with
     | ["s", v] => (fval? v).map .set
     | ["p", v] => (fval? v).map .report
-    | ["t", v] =>
-      if !raop then none
-      else if v == "none" then some (.streamStart none) else (fval? v).map (fun x => .streamStart (some x))
+    | ["t", v, a] =>
+      if !raop || (a != "a" && a != "r") then none
+      else if v == "none" then some (.streamStart none (a == "a"))
+      else (fval? v).map (fun x => .streamStart (some x) (a == "a"))
     | ["o", v] => if raop then none else (fval? v).map .reportOther
     | _ => none
 
